@@ -94,6 +94,7 @@ Definition meth1 (m : string) (r a : val) : outcome :=
   | "wrapping_sub", VN x, VN y => Ret (VN (wsub x y))
   | "wrapping_add", VN x, VN y => Ret (VN (wadd x y))
   | "add", VN x, VN y => if x + y <? W then Ret (VN (x + y)) else Ovf     (* <*mut u8>::add: addresses are numbers *)
+  | "offset", VN x, VN y => if x + y <? W then Ret (VN (x + y)) else Ovf  (* <*mut T>::offset with a non-negative count, in elements *)
   | "max", VN x, VN y => Ret (VN (N.max x y))
   | "min", VN x, VN y => Ret (VN (N.min x y))
   | "unwrap_or", VSome v, _ => Ret v
@@ -114,6 +115,8 @@ Definition meth0 (m : string) (r : val) : outcome :=
   | "cast", v => Ret v
   | "unwrap", VSome v => Ret v
   | "unwrap", VNone => Panic
+  | "expect", VSome v => Ret v                          (* the message is not a value *)
+  | "expect", VNone => Panic
   | "is_some", VSome _ => Ret (VB true)
   | "is_some", VNone => Ret (VB false)
   | "is_none", VSome _ => Ret (VB false)
